@@ -380,3 +380,10 @@ Example nine_addresses_ok :
   | _ => False
   end.
 Proof. vm_compute. split; reflexivity. Qed.
+
+Lemma tab_ok_single cur : tab_ok [cur].
+Proof.
+  split.
+  - pose proof params_ok. unfold Zlen. cbn [length]. lia.
+  - cbn [map]. constructor; [intros []|constructor].
+Qed.
